@@ -376,6 +376,8 @@ func (mr *memRepo) blobCreate(locked bool, opts ...BlobOpt) (BlobCreator, string
 			ok = false
 		}
 		if ok {
+			// the caller reports this as a successful upload, restart the GC grace period of the blob
+			b.m.mod = time.Now()
 			return nil, "", types.ErrBlobExists
 		}
 	}
